@@ -176,6 +176,8 @@ package reflection
 //@   nopanic
 //@   safety[C15]
 //@   requires args: info != nil
+// reflect.Value.Call hands one argument to each parameter: the slice resolved for a variadic parameter is not one of its elements
+//@   at before call info.Value.Call#1 : assert[C04,C08,C15] variadic_functions_are_called_with_their_slice: !ext("(reflect.Type).IsVariadic", "bool", info.Type)
 //@   ensures[C01,C04] calls_the_analyzed_value_once: ncalls("reflect.Value.Call") == 1 && callarg("reflect.Value.Call", 0, 0) == info.Value && callarg("reflect.Value.Call", 0, 1) == args
 //@   ensures[C15] panic_is_reported_with_its_value: err != nil ==> typeis(err, "*PanicError") && as(err, "*PanicError") != nil && as(err, "*PanicError").Panic != nil
 //
